@@ -566,3 +566,5 @@ OUTSIDE = ['a file and a directory whose keys coincide after trimming (res/sub.t
            'rule directories outside the root or equal to it, a root that is relative or does not exist',
            'maps that already hold foreign entries before the first population',
            'trees, depths and names beyond the candidate set; more than two rules; more than two populations']
+
+TECHNIQUE = 'bounded symbolic execution (symx/z3) over file-tree presence bits, rules and options against a real temporary directory'
